@@ -33,8 +33,8 @@ SPEC = {
                   "cfg(routinator_verif) hooks that expose UpdateStatus and RepositoryState.",
     "rule": "cases: all u8 values, all option/variant combinations of header, object and state; boundary values of "
             "every width, sign and marker (u64::MAX, i64::MIN, 0-length https), chrono's time range ends, byte "
-            "strings and URIs of 0..257 and 65535/65536/65537/131073 bytes (read chunk size), maps of 0, 1, 4, 17, "
-            "300 entries with extreme keys; 60 (quick) / 400 (thorough) structured random values per record type "
+            "strings and URIs of 0..257 bytes and around the 64 KiB read chunk (65536, 65537, 131073; more sizes in "
+            "the thorough tier), maps of 0, 1, 4, 17, 100 (thorough: 300) entries with extreme keys; 60 (quick) / 400 (thorough) structured random values per record type "
             "with random trailing bytes; values with sub-second times; distinct = distinct Coq case term; "
             "non-trivial = any kind but u8",
     "assumptions": ["64-bit target (usize = u64)",
